@@ -51,7 +51,7 @@ def m1(F, rep, rule="M1", wentry=W_ENTRY, rentry=R_ENTRY, floors=True, state=Fal
         rep.floor(rule, "correction-contexts-reader", len(corr_r), 10)
         rep.floor(rule, "misprediction-contexts-writer", len(mis_w), 7)
         rep.floor(rule, "misprediction-contexts-reader", len(mis_r), 7)
-        rep.floor(rule, "verify-state-labels", len({l for l in res["wlabels"] if l[0] == "vs"}), 5)
+        rep.floor(rule, "verify-state-labels", len({l for l in res["wlabels"] if l[0] == "vs"}), 1)
         rep.floor(rule, "writer-event-sites", len(W.static_sites(wentry)), 40)
         rep.floor(rule, "reader-event-sites", len(R.static_sites(rentry)), 30)
     return res, W, R
